@@ -79,18 +79,32 @@ End RunInv.
 Definition alg_op (o : op) : Prop :=
   match o with ORaw _ _ | OKilled _ | OKill _ => True | _ => False end.
 
+(* the non-blocking part of the algorithms: try, release, kill *)
+Definition nbalg (o : op) : Prop :=
+  match o with ORaw k _ => rop_blocking k = false | OKilled _ | OKill _ => True | _ => False end.
+Lemma nbalg_alg o : nbalg o -> alg_op o.
+Proof. destruct o; simpl; tauto. Qed.
+Lemma try_op_nb k m : rop_blocking (try_op k m) = false.
+Proof. destruct k, m; reflexivity. Qed.
+Lemma rel_op_nb k m : rop_blocking (rel_op k m) = false.
+Proof. destruct k, m; reflexivity. Qed.
+
 Lemma leaf_lock_ops m k l : ops_in alg_op (leaf_lock m k l).
 Proof.
   unfold leaf_lock. constructor; [exact I|]. intros v. destruct (vtrue v); [constructor|].
   constructor; apply ops_in_op_; exact I.
 Qed.
-Lemma leaf_try_ops m k l : ops_in alg_op (leaf_try m k l).
+Lemma leaf_try_nb m k l : ops_in nbalg (leaf_try m k l).
 Proof.
   unfold leaf_try. constructor; [exact I|]. intros v. destruct (vtrue v); [constructor|].
-  constructor; [|apply ops_in_op_; exact I]. constructor; [exact I|]. intros; constructor.
+  constructor; [|apply ops_in_op_; exact I]. constructor; [apply try_op_nb|]. intros; constructor.
 Qed.
+Lemma leaf_unlock_nb m k l : ops_in nbalg (leaf_unlock m k l).
+Proof. unfold leaf_unlock. constructor; apply ops_in_op_; [apply rel_op_nb|exact I]. Qed.
+Lemma leaf_try_ops m k l : ops_in alg_op (leaf_try m k l).
+Proof. eapply ops_in_weaken; [apply nbalg_alg|apply leaf_try_nb]. Qed.
 Lemma leaf_unlock_ops m k l : ops_in alg_op (leaf_unlock m k l).
-Proof. unfold leaf_unlock. constructor; apply ops_in_op_; exact I. Qed.
+Proof. eapply ops_in_weaken; [apply nbalg_alg|apply leaf_unlock_nb]. Qed.
 
 Lemma rawref_ind2 (P : rawref -> Prop) :
   (forall k l, P (RLeaf k l)) -> (forall u inner, Forall P inner -> P (ROwned u inner)) -> forall r, P r.
@@ -99,22 +113,29 @@ Proof.
   induction inner as [|x xs IHx]; constructor; [apply IH|exact IHx].
 Qed.
 
-Lemma rr_poison_ops r : ops_in alg_op (rr_poison r).
+Lemma rr_poison_nb r : ops_in nbalg (rr_poison r).
 Proof.
   induction r as [k l|u inner IH] using rawref_ind2; simpl; [apply ops_in_op_; exact I|].
   apply ops_in_seqs. rewrite Forall_map. exact IH.
 Qed.
 
-Lemma rr_unlock_ops m r : ops_in alg_op (rr_unlock m r).
+Lemma rr_unlock_nb m r : ops_in nbalg (rr_unlock m r).
 Proof.
-  induction r as [k l|u inner IH] using rawref_ind2; simpl; [apply leaf_unlock_ops|].
+  induction r as [k l|u inner IH] using rawref_ind2; simpl; [apply leaf_unlock_nb|].
   apply ops_in_seqs. rewrite Forall_map. exact IH.
 Qed.
 
-Lemma recover_ops m rs : ops_in alg_op (recover m rs).
+Lemma recover_nb m rs : ops_in nbalg (recover m rs).
 Proof.
-  unfold recover. constructor; apply ops_in_seqs_map; intros; [apply rr_unlock_ops|apply rr_poison_ops].
+  unfold recover. constructor; apply ops_in_seqs_map; intros; [apply rr_unlock_nb|apply rr_poison_nb].
 Qed.
+
+Lemma rr_poison_ops r : ops_in alg_op (rr_poison r).
+Proof. eapply ops_in_weaken; [apply nbalg_alg|apply rr_poison_nb]. Qed.
+Lemma rr_unlock_ops m r : ops_in alg_op (rr_unlock m r).
+Proof. eapply ops_in_weaken; [apply nbalg_alg|apply rr_unlock_nb]. Qed.
+Lemma recover_ops m rs : ops_in alg_op (recover m rs).
+Proof. eapply ops_in_weaken; [apply nbalg_alg|apply recover_nb]. Qed.
 
 Lemma ordered_lock_from_ops m lk done todo :
   Forall (fun x => ops_in alg_op (lk x)) todo -> ops_in alg_op (ordered_lock_from m lk done todo).
@@ -140,6 +161,49 @@ Proof.
   constructor; [constructor; [exact Hx|apply recover_ops]|].
   intros v. destruct (vtrue v); [apply IH|].
   apply ops_in_then; [|constructor]. constructor; apply recover_ops.
+Qed.
+
+Lemma ordered_try_from_nb m tr done todo :
+  Forall (fun x => ops_in nbalg (tr x)) todo -> ops_in nbalg (ordered_try_from m tr done todo).
+Proof.
+  intros H. revert done. induction H as [|x r Hx Hr IH]; intros done; simpl; [constructor|].
+  constructor; [constructor; [exact Hx|apply recover_nb]|].
+  intros v. destruct (vtrue v); [apply IH|].
+  apply ops_in_then; [|constructor]. constructor; [|apply recover_nb].
+  apply ops_in_seqs_map. intros; apply rr_unlock_nb.
+Qed.
+
+Lemma retry_try_from_nb m tr done todo :
+  Forall (fun x => ops_in nbalg (tr x)) todo -> ops_in nbalg (retry_try_from m tr done todo).
+Proof.
+  intros H. revert done. induction H as [|x r Hx Hr IH]; intros done; simpl; [constructor|].
+  constructor; [constructor; [exact Hx|apply recover_nb]|].
+  intros v. destruct (vtrue v); [apply IH|].
+  apply ops_in_then; [|constructor]. constructor; apply recover_nb.
+Qed.
+
+Lemma rr_try_nb m r : ops_in nbalg (rr_try m r).
+Proof.
+  induction r as [k l|u inner IH] using rawref_ind2; simpl; [apply leaf_try_nb|].
+  now apply ordered_try_from_nb.
+Qed.
+
+Lemma raw_try_nb m a : ops_in nbalg (raw_try m a).
+Proof.
+  destruct a as [k l|rs|rs|]; cbn [raw_try].
+  - apply leaf_try_nb.
+  - apply ordered_try_from_nb. apply Forall_forall. intros; apply rr_try_nb.
+  - unfold retry_try. destruct rs; [constructor|]. apply retry_try_from_nb. apply Forall_forall. intros; apply rr_try_nb.
+  - constructor.
+Qed.
+
+Lemma raw_unlock_nb m a : ops_in nbalg (raw_unlock m a).
+Proof.
+  destruct a as [k l|rs|rs|]; cbn [raw_unlock].
+  - apply leaf_unlock_nb.
+  - apply ops_in_seqs_map. intros; apply rr_unlock_nb.
+  - apply ops_in_seqs_map. intros; apply rr_unlock_nb.
+  - constructor.
 Qed.
 
 Lemma rr_lock_ops m r : ops_in alg_op (rr_lock m r).
@@ -218,4 +282,56 @@ Proof.
       by (eapply ops_in_weaken; [|apply leaf_unlock_ops]; intros o; destruct o; simpl; tauto).
     destruct unw; apply ops_in_then; auto; constructor; auto; constructor.
   - apply ops_in_then; [|apply IH]. destruct unw; [apply ops_in_op_; exact I|constructor].
+Qed.
+
+(* ---------------------------------------------------------------- programs that cannot wait *)
+Definition nbop (o : op) : Prop := match o with ORaw k _ => rop_blocking k = false | _ => True end.
+Definition nb_ev (e : ev) : Prop := match e with ERaw _ k _ _ => rop_blocking k = false | _ => True end.
+
+Lemma nbalg_nbop o : nbalg o -> nbop o.
+Proof. destruct o; simpl; tauto. Qed.
+
+Lemma raw_apply_nb t k s pw : rop_blocking k = false -> raw_apply t k s pw <> ABlock.
+Proof.
+  destruct k; simpl; intros H; try discriminate H.
+  - destruct (is_free s); discriminate.
+  - destruct (writer_is s t); discriminate.
+  - destruct (no_writer s && negb pw); discriminate.
+  - destruct (memb t (readers s)); discriminate.
+Qed.
+
+Lemma run_nonblocking pw t p :
+  ops_in nbop p -> forall w out w', run pw t p w = (out, w') ->
+  out <> OBlocked /\ exists evs, w_trace w' = evs ++ w_trace w /\ Forall nb_ev evs.
+Proof.
+  induction 1 as [v| | | |o k Ho Hk IH|m k Hm IHm Hk IHk|b h Hb IHb Hh IHh]; intros w out w' R; simpl in R.
+  - inversion R; subst. split; [discriminate|exists []; split; [reflexivity|constructor]].
+  - inversion R; subst. split; [discriminate|exists []; split; [reflexivity|constructor]].
+  - inversion R; subst. split; [discriminate|exists []; split; [reflexivity|constructor]].
+  - inversion R; subst. split; [discriminate|exists []; split; [reflexivity|constructor]].
+  - assert (D : match do_op pw t o w with
+                | RDone _ w1 | RPanic w1 => exists evs, w_trace w1 = evs ++ w_trace w /\ Forall nb_ev evs
+                | RBlock _ => False
+                end).
+    { destruct o; simpl in Ho; simpl;
+        try (exists []; split; [reflexivity|constructor]);
+        try (eexists [_]; split; [reflexivity|repeat constructor]).
+      destruct (faulty w k0 l); [eexists [_]; split; [reflexivity|]; constructor; [exact Ho|constructor]|].
+      pose proof (raw_apply_nb t k0 (w_raw w l) (pw l) Ho) as NB.
+      destruct (raw_apply t k0 (w_raw w l) (pw l)); try contradiction;
+        (eexists [_]; split; [reflexivity|]; constructor; [exact Ho|constructor]). }
+    destruct (do_op pw t o w) as [v w1|w1|w1]; [| |destruct D].
+    + destruct D as [e1 [T1 F1]]. destruct (IH v w1 out w' R) as [Hn [e2 [T2 F2]]].
+      split; [exact Hn|]. exists (e2 ++ e1). split; [rewrite T2, T1; now rewrite app_assoc|apply Forall_app; now split].
+    + inversion R; subst. split; [discriminate|exact D].
+  - destruct (run pw t m w) as [o1 w1] eqn:R1. destruct (IHm w o1 w1 R1) as [Hn1 [e1 [T1 F1]]].
+    destruct o1; try (inversion R; subst; split; [assumption||discriminate|exists e1; now split]).
+    destruct (IHk v w1 out w' R) as [Hn [e2 [T2 F2]]].
+    split; [exact Hn|]. exists (e2 ++ e1). split; [rewrite T2, T1; now rewrite app_assoc|apply Forall_app; now split].
+  - destruct (run pw t b w) as [o1 w1] eqn:R1. destruct (IHb w o1 w1 R1) as [Hn1 [e1 [T1 F1]]].
+    destruct o1; try (inversion R; subst; split; [assumption||discriminate|exists e1; now split]).
+    destruct (run pw t h w1) as [o2 w2] eqn:R2. destruct (IHh w1 o2 w2 R2) as [Hn2 [e2 [T2 F2]]].
+    assert (X : exists evs, w_trace w2 = evs ++ w_trace w /\ Forall nb_ev evs).
+    { exists (e2 ++ e1). split; [rewrite T2, T1; now rewrite app_assoc|apply Forall_app; now split]. }
+    destruct o2; inversion R; subst; (split; [assumption||discriminate|exact X]).
 Qed.
